@@ -5,7 +5,7 @@ PRELUDE = r'''
 #include "vs_netstr.h"
 int vs_exc; bool g_hit_end; size_t g_w; long g_strtol_ret; char g_strtol_endc;
 /* ghost: what AddressParser made of the text (set at every exit of its constructor) */
-size_t g_fact_idx[4]; char g_fact_ch[4]; unsigned g_fact_n;
+size_t g_fact_idx[4]; char g_fact_ch[4]; unsigned g_fact_n; size_t g_nofact_from[2]; char g_nofact_ch[2]; unsigned g_nofact_n;
 size_t g_ap_portlen; bool g_ap_colon, g_ap_ok; int g_ap_family;
 #define AF_INET_ 2
 #define AF_INET6_ 10
@@ -16,6 +16,7 @@ STUBS = {
     'std::string::empty': 'vs_nstr_empty', 'std::string::size': 'vs_nstr_size', 'std::string::c_str': 'vs_nstr_c_str',
     'std::string::find': {'expr': 'vs_nstr_find($this, $0, 0)'},
     'std::string::find_first_of': {'expr': 'vs_nstr_find($this, $0, $1)'},
+    'operator[]|std::string': {'expr': 'vs_nstr_index(&($0), $1)'},
     'std::string::substr/2': 'vs_nstr_substr', 'std::string::substr/1': 'vs_nstr_substr1',
     'min': {'expr': '((uint16_t)0)'}, 'max': {'expr': '((uint16_t)65535)'},
     'operator=|std::string,std::string': 'vs_nstr_assign',
@@ -45,8 +46,8 @@ FUNCTIONS = [
     {'q': 'Pistache::AddressParser::AddressParser',
      'exit_ghost': 'g_ap_portlen = this->port_.size; g_ap_colon = this->hasColon_; g_ap_ok = (vs_exc == 0); g_ap_family = this->family_;',
      'contract': """
-        requires FRESH(this, sizeof(*this)) && NSTR_PRE(data) && data->off == 0 && vs_exc == 0 && g_fact_n == 0
-        assigns *this, vs_exc, g_ap_portlen, g_ap_colon, g_ap_ok, g_ap_family, g_fact_n, __CPROVER_object_whole(g_fact_idx), __CPROVER_object_whole(g_fact_ch)
+        requires FRESH(this, sizeof(*this)) && NSTR_PRE(data) && data->off == 0 && vs_exc == 0 && g_fact_n == 0 && g_nofact_n == 0
+        assigns *this, vs_exc, g_ap_portlen, g_ap_colon, g_ap_ok, g_ap_family, g_fact_n, __CPROVER_object_whole(g_fact_idx), __CPROVER_object_whole(g_fact_ch), g_nofact_n, __CPROVER_object_whole(g_nofact_from), __CPROVER_object_whole(g_nofact_ch)
         # index arithmetic stays in range for any string: the only error is invalid-argument
         ensures vs_exc == 0 || vs_exc == VS_EXC_INVALID_ARGUMENT
         ensures g_ap_portlen == this->port_.size && IFF(g_ap_colon, this->hasColon_) && IFF(g_ap_ok, vs_exc == 0) && g_ap_family == this->family_
@@ -57,19 +58,23 @@ FUNCTIONS = [
         # a colon announces a non-empty port or the text is rejected; without a colon there is no port
         ensures (vs_exc == 0 && this->hasColon_) ==> this->port_.size > 0
         ensures (vs_exc == 0 && !this->hasColon_) ==> this->port_.size == 0
-        ensures (vs_exc != 0) ==> this->hasColon_
+        ensures (vs_exc != 0) ==> (this->hasColon_ || this->family_ == AF_INET6_)
         # unbracketed form: host is the text before the first colon, port the text after it
         ensures (vs_exc == 0 && this->family_ == AF_INET_) ==> this->host_.off == 0
         ensures (vs_exc == 0 && this->family_ == AF_INET_ && this->hasColon_) ==> (this->port_.off == this->host_.size + 1 && this->port_.off + this->port_.size == data->size)
         ensures (vs_exc == 0 && this->family_ == AF_INET_ && !this->hasColon_) ==> this->host_.size == data->size
         # bracketed form: the host piece holds at least the two brackets
-        ensures (vs_exc == 0 && this->family_ == AF_INET6_) ==> this->host_.size >= 2"""},
+        ensures (vs_exc == 0 && this->family_ == AF_INET6_) ==> this->host_.size >= 2
+        # C19 (a malformed literal is rejected, not truncated): nothing but ":port" may follow the closing bracket -- without a colon the
+        # bracketed literal is the whole text, with one the port piece starts right behind "]:" and runs to the end
+        ensures (vs_exc == 0 && this->family_ == AF_INET6_ && !this->hasColon_) ==> this->host_.off + this->host_.size >= data->size
+        ensures (vs_exc == 0 && this->family_ == AF_INET6_ && this->hasColon_) ==> this->port_.off + this->port_.size == data->size"""},
     {'q': 'Pistache::AddressParser::rawHost'}, {'q': 'Pistache::AddressParser::rawPort'}, {'q': 'Pistache::AddressParser::hasColon'},
     {'q': 'Pistache::AddressParser::family'},
     {'q': 'Pistache::Port::Port', 'sig': 'void (uint16_t)', 'c': 'Pistache_Port_ctor_u16'},
     {'q': 'Pistache::Address::init', 'dead_ok': ['throw std::invalid_argument("Invalid port");'], 'ghost': [('vs_strtol', 'before', 'g_w = portPart->size;')], 'contract': """
-        requires FRESH(this, sizeof(*this)) && NSTR_PRE(addr) && addr->off == 0 && vs_exc == 0 && g_fact_n == 0
-        assigns this->port_, this->ip_, vs_exc, g_w, g_strtol_ret, g_strtol_endc, g_ap_portlen, g_ap_colon, g_ap_ok, g_ap_family, g_fact_n, __CPROVER_object_whole(g_fact_idx), __CPROVER_object_whole(g_fact_ch)
+        requires FRESH(this, sizeof(*this)) && NSTR_PRE(addr) && addr->off == 0 && vs_exc == 0 && g_fact_n == 0 && g_nofact_n == 0
+        assigns this->port_, this->ip_, vs_exc, g_w, g_strtol_ret, g_strtol_endc, g_ap_portlen, g_ap_colon, g_ap_ok, g_ap_family, g_fact_n, __CPROVER_object_whole(g_fact_idx), __CPROVER_object_whole(g_fact_ch), g_nofact_n, __CPROVER_object_whole(g_nofact_from), __CPROVER_object_whole(g_nofact_ch)
         # never an out-of-range substr, whatever the text
         ensures vs_exc == 0 || vs_exc == VS_EXC_INVALID_ARGUMENT || vs_exc == VS_EXC_OTHER_STD
         ensures !g_ap_ok ==> vs_exc == VS_EXC_INVALID_ARGUMENT
@@ -83,3 +88,14 @@ PROOFS = [
     {'name': 'AddressParser', 'enforce': 'Pistache_AddressParser_ctor', 'props': ['C19', 'C03']},
     {'name': 'Address_init', 'enforce': 'Pistache_Address_init', 'replace': ['Pistache_AddressParser_ctor'], 'props': ['C19', 'C03']},
 ]
+# thorough tier: address and port texts on the real code (numeric literals only: no name resolution offline)
+NATIVE_SWEEPS = [{'name': 'address_texts', 'driver': 'addr_rt', 'props': ['C19'], 'what': 'Address(std::string), Port(std::string), operator<<(ostream, Address)',
+    'argvs': [['addr', '127.0.0.1:8080', '127.0.0.1', 8080, 4], ['addr', '127.0.0.1', '127.0.0.1', 80, 4], ['addr', '10.0.0.255:0', '10.0.0.255', 0, 4],
+              ['addr', '255.255.255.255:65535', '255.255.255.255', 65535, 4], ['addr', '*:9080', '0.0.0.0', 9080, 4], ['addr', '*', '0.0.0.0', 80, 4],
+              ['addr', '[::1]:8080', '::1', 8080, 6], ['addr', '[::1]', '::1', 80, 6], ['addr', '[::]:80', '::', 80, 6], ['addr', '[2001:db8::1]:65535', '2001:db8::1', 65535, 6],
+              ['addr', '[0:0:0:0:0:0:0:1]:1', '::1', 1, 6],
+              ['addr', '127.0.0.1:65536', 'reject'], ['addr', '127.0.0.1:', 'reject'], ['addr', '127.0.0.1:-1', 'reject'], ['addr', '127.0.0.1:8x', 'reject'], ['addr', '127.0.0.1:x', 'reject'],
+              ['addr', '[::1]:', 'reject'], ['addr', '[::1]:65536', 'reject'], ['addr', '[::1]8080', 'reject'], ['addr', '[::1]x', 'reject'],
+              ['addr', '[::1]]:80', 'reject'], ['addr', '[::g]:80', 'reject'], ['addr', '1.2.3.4:99999999999999999999', 'reject'],
+              ['port', '0', 0], ['port', '80', 80], ['port', '65535', 65535], ['port', '65536', 'reject'], ['port', '-1', 'reject'], ['port', '', 'reject'], ['port', '8o', 'reject'],
+              ['port', ' 80', 80], ['port', '99999999999999999999', 'reject']]}]
